@@ -662,7 +662,7 @@ fn slice_lfu(a: &Args, t: &mut Trace, which: u32) {
                 let samples = r.range(0, 8);
                 let ctor = r.below(7);
                 let samples = if matches!(ctor, 0 | 2 | 4) { 5 } else { samples };
-                let mc = r.below(500) as i64 - 50;
+                let mc = if r.chance(1, 12) { gen::extreme_i64(&mut r) as i64 } else { r.below(500) as i64 - 50 };
                 let mut pool = Vec::new();
                 let id = format!("sampled-s{}-i{}", a.seed, i);
                 let meta = format!("ctor={}", ctor);
